@@ -242,6 +242,18 @@ def gen_html_doc(ch, kinds=HTML_KINDS + ('xhtml', 'lxml-xml', 'xml-api'), depth=
         top = [E('html', hattrs, [E('head', {}, head, ns=ns), E('body', {}, body, ns=ns)], ns=ns)]
     if kind in ('html.parser', 'lxml', 'html5lib') and ch.p(0.3):
         top.insert(0, {'k': 'dt', 's': 'html'})
+    if ch.p(0.6):
+        # attribute order is arbitrary in real markup (`<input checked type=radio name=g>`)
+        def shuffle(node):
+            if node['k'] == 'e':
+                at = node['attrs']
+                for i in range(len(at) - 1, 0, -1):
+                    j = ch.i(0, i)
+                    at[i], at[j] = at[j], at[i]
+                for c in node['ch']:
+                    shuffle(c)
+        for n in top:
+            shuffle(n)
     return {'kind': kind, 'top': top, 'detach': None}, flavour
 
 
